@@ -88,7 +88,7 @@ theorem seq_step_mono (s : Net) (op : Op) (x : Node) : (s.nodes x).seq ≤ ((ste
       · rename_i hx; subst hx; simp
       · exact Nat.le_refl _
     · exact Nat.le_refl _
-  | withdraw a =>
+  | withdraw a _ =>
     simp only [step, stepCore]; split
     · simp only [setNode_nodes]; split
       · rename_i hx; subst hx; simp
@@ -153,7 +153,7 @@ theorem seen_step {s : Net} {op : Op} {x : Node} {k : Node × Nat} (h : k ∈ ((
       · rename_i hx; subst hx; exact Or.inl h
       · exact Or.inl h
     · exact Or.inl h
-  | withdraw a =>
+  | withdraw a _ =>
     simp only [step, stepCore] at h; split at h
     · simp only [setNode_nodes] at h; split at h
       · rename_i hx; subst hx; exact Or.inl h
@@ -209,8 +209,9 @@ theorem announce_seq (s : Net) (a : Node) (hint : List (List RAd)) (ha : a < s.n
   rw [if_pos ha']
   simp
 
-theorem withdraw_seq (s : Net) (a : Node) (hc : a < s.n ∧ (s.nodes a).locals.any (fun r => r.kind == 0) = true) :
-    ((step s (.withdraw a)).nodes a).seq = (s.nodes a).seq + 1 := by
+theorem withdraw_seq (s : Net) (a : Node) (hint : List (List RAd))
+    (hc : a < s.n ∧ (s.nodes a).locals.any (fun r => r.kind == 0) = true) :
+    ((step s (.withdraw a hint)).nodes a).seq = (s.nodes a).seq + (withdrawAdvs a (s.nodes a) hint).length := by
   simp only [step, stepCore]
   have hc' : a < (tick s).n ∧ ((tick s).nodes a).locals.any (fun r => r.kind == 0) = true := hc
   rw [if_pos hc']
@@ -237,10 +238,10 @@ theorem seqInv_step {s : Net} {op : Op} (hI : SeqInv s) (hb : benignOp s op = tr
     | fwd a m hm hl ha hb' hd hne hns hself hseen hsb hlim hwire hadv =>
       rw [hadv, fwdAdv_seq, fwdAdv_origin]
       exact Nat.le_trans (hI.flight _ hm) (seq_step_mono s op _)
-    | wdr hop ha hcidr hd hadv =>
-      rw [hadv, hop]
-      simp only [withdrawAdv, tick_nodes]
-      rw [withdraw_seq s f.src ⟨ha, hcidr⟩]; exact Nat.le_refl _
+    | wdr hint hop ha hcidr hd hadv =>
+      have h := mem_withdrawAdvs hadv
+      rw [h.origin, hop, withdraw_seq s f.src hint ⟨ha, hcidr⟩]
+      exact h.seq_le
     | rep ord hop ha hb' hl hadv =>
       subst hop
       obtain ⟨ho, _⟩ := benign_replay hb hadv
